@@ -171,6 +171,8 @@ def m_panic(ex, c, args, m):
         a = dd(a) if isinstance(a, Ref) else a
         if isinstance(a, str): msg = str(a); break
         if isinstance(a, Struct) and a.tag == 'Arguments': msg = a.f.get('s', ''); break
+    import re as _re
+    msg = _re.sub(r'\\x[0-9a-f]{2}|[^\x20-\x7e]', '', msg)
     raise Panic('panic: ' + (msg or c[:60]))
 
 @M.add(r'^(core::fmt::)?Arguments::<.*>::(new|new_const|new_v1|from_str|new_v1_formatted)')
